@@ -119,6 +119,7 @@ struct Chan {
 
   void Fulfil(InSpec& s) {
     Jitter(s.jit);
+    VF_W(s.side, "C04");
     s.side = s.code;
     s.set_call = Stamp();
     if (shared) {
@@ -262,6 +263,7 @@ void DigestOut(OutObs& o, const Result<OutV, MyError>& r, const std::vector<InSp
   }
   for (const auto& s : in) {
     if (o.side_mode == 1 || (o.side_mode == 2 && s.code == o.top.code)) {
+      VF_R(s.side, "C04");
       o.side_sum += s.side;
     }
   }
